@@ -3,6 +3,10 @@
 Body commands: set, incr, get, delete, and the other read-modify-writes of the transaction backend: expire (buffers the backend's
 current value and writes it back at commit) and set(exist=True|False) (decides on the key's presence); explicit `tx.commit()` /
 `tx.rollback()` on the Transaction object in the middle of a body (the body goes on: a body is a sequence of segments).
+Nested blocks (`nin` .. `nout`), also inner blocks that are LEFT BY AN EXCEPTION WHICH THE ENCLOSING BODY CATCHES (`nin` .. `nfail`): nested
+blocks are flat, the failure of an inner block does not mark the transaction.  Block forms: context manager on an object of its own
+("ctx"), a call of one decorated function shared by all tasks ("dec"), context manager on ONE context object shared by all tasks
+("obj": `T = cache.transaction(m)`, `async with T:` in several tasks at once - defect D45, signature D45:shared-transaction-context-object).
 Block endings: the body returns, raises an exception object of one of four kinds (an Exception / a BaseException that is not an
 Exception, each with truthy instances - like every built-in exception - or with FALSY instances: a class defining `__len__` /
 `__bool__`, e.g. an error collection raised while empty), gets LockedError, or the
@@ -132,10 +136,10 @@ def handles_ok(ops, form) -> bool:
     for op in ops:
         if op[0] == "nin":
             stack.append(op[1])
-        elif op[0] == "nout":
+        elif op[0] in ("nout", "nfail"):
             if len(stack) > 1:
                 stack.pop()
-        elif op[0] in ("commit", "rollback") and "ctx" not in stack:
+        elif op[0] in ("commit", "rollback") and "ctx" not in stack and "obj" not in stack:
             return False
     return True
 
@@ -265,7 +269,7 @@ def oracle(case, res):
     durable = {}                                    # tid -> the increments its commits made durable (None: own_writes_only already failed)
     for tid, p in enumerate(progs):
         st = steps[tid]
-        flat = [op for op in p["ops"] if op[0] not in ("nin", "nout", "sleep", "gc") and not (p["kind"] == "plain" and op[0] in ("commit", "rollback"))]
+        flat = [op for op in p["ops"] if op[0] not in ("nin", "nout", "nfail", "sleep", "gc") and not (p["kind"] == "plain" and op[0] in ("commit", "rollback"))]
         diffs = [(lab, {k: a.get(k) for k in set(b) | set(a) if a.get(k) != b.get(k)}) for lab, b, a, _, _, _ in st]
         if p["kind"] == "plain" and tid in cancelled_at:
             # a task outside any transaction that was cancelled: what it did before went straight to the store; nothing afterwards
@@ -537,10 +541,36 @@ def oracle(case, res):
             stats["plain_inside_tx_window"] = 1
         if any(op[0] == "nin" for op in progs[tid]["ops"]):
             stats["nested_block"] = 1
+        if any(op[0] == "nfail" for op in progs[tid]["ops"]):
+            # an inner block left by an exception that the enclosing body caught - did the body get that far, and did it return then?
+            ops_t = progs[tid]["ops"]
+            last = max(j for j, op in enumerate(ops_t) if op[0] == "nfail")
+            reached = outs[tid].startswith("ret:") or (outs[tid].startswith("raise:") and outs[tid] != "raise:locked"
+                                                        and any(op[0] == "raise" for op in ops_t[last:]))
+            if reached:
+                stats["inner_block_failed_and_outer_body_caught_it"] = 1
+            if outs[tid].startswith("ret:"):
+                stats["body_returned_after_a_caught_inner_failure"] = 1
+                if any(l.startswith(("set_many:", "delete_many:")) for l in labs):
+                    stats["commit_after_a_caught_inner_failure"] = 1
+                if any(op[0] == "nin" and op[1] == "dec" for op in ops_t):
+                    stats["caught_failure_of_a_nested_decorated_call"] = 1
+                if any(op[0] == "nin" and op[1] == "ctx" for op in ops_t):
+                    stats["caught_failure_of_a_nested_context_manager_block"] = 1
         if outs[tid] == "raise:body" and any(l.startswith("unlock:") for l in labs):
             stats["raise_with_locks"] = 1
         if outs[tid] in ("raise:falsy", "raise:falsybase") and any(l.startswith("unlock:") for l in labs):
             stats["falsy_raise_with_locks"] = 1
+    objs = [i for i in txs if progs[i].get("form") == "obj" or any(op[0] == "nin" and op[1] == "obj" for op in progs[i]["ops"])]
+    for a in objs:
+        for b in objs:
+            if a < b and (progs[a]["mode"], progs[a]["timeout"]) == (progs[b]["mode"], progs[b]["timeout"]) and steps[a] and steps[b]:
+                if steps[a][0][5] < steps[b][-1][5] and steps[b][0][5] < steps[a][-1][5]:
+                    stats["one_shared_context_object_overlapping_blocks"] = 1
+                    if any(not outs[t].startswith("ret:") for t in (a, b)) and any(outs[t].startswith("ret:") for t in (a, b)):
+                        stats["shared_context_object_one_block_fails_the_other_commits"] = 1
+    if any(progs[i].get("form") == "obj" and any(op[0] == "nin" and op[1] == "obj" for op in progs[i]["ops"]) for i in txs):
+        stats["shared_context_object_reentered_by_its_own_task"] = 1
     decs = [i for i in txs if progs[i].get("form") == "dec" or any(op[0] == "nin" and op[1] == "dec" for op in progs[i]["ops"])]
     for a in decs:
         for b in decs:
@@ -621,7 +651,7 @@ def sanitize(ops):
     """keep nin/nout balanced after ops were removed"""
     out, depth = [], 0
     for op in ops:
-        if op[0] == "nout":
+        if op[0] in ("nout", "nfail"):
             if depth == 0:
                 continue
             depth -= 1
@@ -695,6 +725,29 @@ def describe(r):
     return rows
 
 
+D45 = "D45:shared-transaction-context-object"
+
+
+def sharing_is_the_cause(case) -> bool:
+    """the failing case has >= 2 tasks entering THE shared context object (form "obj") of one (mode, timeout), and the very same case
+    is fine when every block is opened on a context object of its own instead ("obj" -> "ctx"): what breaks it is state shared
+    between tasks through the object (defect D45, repaired by keeping the per-block state per transaction)"""
+    users = {}
+    for p in case["programs"]:
+        if p["kind"] == "tx" and (p.get("form") == "obj" or any(op[0] == "nin" and op[1] == "obj" for op in p["ops"])):
+            users[(p["mode"], p["timeout"])] = users.get((p["mode"], p["timeout"]), 0) + 1
+    if not any(n >= 2 for n in users.values()):
+        return False
+    own = dict(case, programs=[dict(p, form="ctx" if p.get("form") == "obj" else p.get("form", "ctx"),
+                                    ops=[["nin", "ctx"] if op[0] == "nin" and op[1] == "obj" else op for op in p["ops"]]) if p["kind"] == "tx" else p
+                               for p in case["programs"]])
+    try:
+        e = evaluate([own])[0]
+    except HarnessError:
+        return False
+    return not e["bad"] and e["mdiff"] is None
+
+
 def report(chk: Check, r, origin):
     case = r["case"]
     if r["bad"]:
@@ -702,6 +755,18 @@ def report(chk: Check, r, origin):
         small = shrink(case, lambda c: any(b[0] == stmt for b in evaluate([c])[0]["bad"]))
         rr = evaluate([small])[0]
         msgs = [m for s, m in rr["bad"]] or [m for s, m in r["bad"]]
+        if sharing_is_the_cause(small):
+            chk.violation(
+                f"{stmt}: one `cache.transaction()` object entered by two tasks at once (`async with T:`): {msgs[0]}",
+                {"case": small, "statements_violated": sorted({s for s, _ in rr["bad"]}), "messages": msgs,
+                 "outcomes": {str(k): canon_outcome(v) for k, v in rr["res"]["outcomes"].items()},
+                 "final_store": {str(k): v for k, v in rr["res"]["final"].items()},
+                 "final_locks": rr["res"].get("final_locks"),
+                 "trace": describe(rr), "first_diff_vs_model": rr["mdiff"], "origin": origin,
+                 "same_case_on_context_objects_of_their_own": "no disagreement",
+                 "replay_cmd": "./check C05 --replay <this file>"},
+                signature=D45)
+            return
         chk.violation(
             f"{stmt}: {msgs[0]}",
             {"case": small, "statements_violated": sorted({s for s, _ in rr["bad"]}), "messages": msgs,
@@ -796,6 +861,38 @@ def exhaustive_families():
                      f"tx.commit(), against a plain reader",
                      {0: 1}, [tx(mode, [["set", 1, 5], ["nin", "ctx"], ["commit"], ["incr", 0, 1], ["raise", "falsy"], ["nout"]], "dec", 40),
                               plain([["get", 1], ["get", 0]])], True))
+    for mode in ("fast", "locked", "serializable"):
+        # an INNER block (nested `async with`, or a decorated call made from inside the transaction) is left by an exception that the
+        # enclosing body catches: nested blocks are flat - the transaction is not marked by the failure, and a body that then finishes
+        # normally commits everything it buffered (the failed inner block's writes included)
+        fams.append((f"{mode}: set, incr, a nested context-manager block that writes and FAILS (caught by the body), incr, set - the body "
+                     f"returns - against an incrementing decorated call",
+                     {0: 1}, [tx(mode, [["set", 1, 5], ["incr", 0, 1], ["nin", "ctx"], ["set", 2, 7], ["nfail"], ["incr", 0, 1], ["set", 3, 9]], "ctx", 40),
+                              tx(mode, [["incr", 0, 4]], "dec", 40)], True))
+        fams.append((f"{mode}: two calls of one decorated function, each incrementing, calling a decorated helper that increments and FAILS "
+                     f"(caught, a falsy Exception), then writing a flag",
+                     {}, [tx(mode, [["incr", 0, 1], ["nin", "dec"], ["incr", 0, 2], ["nfail", "falsy"], ["set", 1, 1]], "dec", 40),
+                          tx(mode, [["incr", 0, 1], ["nin", "dec"], ["incr", 0, 2], ["nfail", "falsy"], ["set", 2, 1]], "dec", 40)], mode != "locked"))
+        fams.append((f"{mode}: CANCEL anywhere: a decorated call whose nested block deletes and FAILS with a non-Exception BaseException "
+                     f"(caught), then incr, against a plain writer",
+                     {0: 1, 2: 3}, [tx(mode, [["set", 1, 5], ["nin", "ctx"], ["del", 2], ["nfail", "base"], ["incr", 0, 1]], "dec", 40),
+                                    plain([["set", 2, 8]])], True, 1))
+        fams.append((f"{mode}: a caught failure of a nested decorated call, tx.commit(), a second caught failure, then the body raises",
+                     {0: 1}, [tx(mode, [["nin", "dec"], ["incr", 0, 1], ["nfail"], ["commit"], ["nin", "ctx"], ["set", 1, 2], ["nfail", "falsybase"],
+                                        ["incr", 0, 1], ["raise"]], "ctx", 40),
+                              tx(mode, [["incr", 0, 4]], "dec", 40)], mode != "locked"))
+    for mode in ("fast", "locked", "serializable"):
+        # ONE context object `T = cache.transaction(mode)` entered by several tasks at once (`async with T:` in two handlers): each task
+        # has its own transaction; what a block remembers is kept per transaction, not on the shared object (defect D45)
+        fams.append((f"{mode}: two tasks inside `async with T:` on ONE shared context object: a committing writer against a block that raises",
+                     {0: 1}, [tx(mode, [["set", 1, 5], ["incr", 0, 1]], "obj", 40), tx(mode, [["incr", 0, 2], ["set", 2, 6], ["raise"]], "obj", 40)], True))
+        fams.append((f"{mode}: the shared context object re-entered by its own task (nested in itself) while another task is inside it with a "
+                     f"nested block that fails and is caught",
+                     {0: 1}, [tx(mode, [["incr", 0, 1], ["nin", "obj"], ["set", 1, 5], ["nout"], ["get", 1]], "obj", 40),
+                              tx(mode, [["nin", "obj"], ["incr", 0, 2], ["nfail"], ["set", 2, 1]], "obj", 40)], mode != "locked"))
+        fams.append((f"{mode}: CANCEL anywhere: two tasks inside the shared context object, a decorated call nested in one of them",
+                     {0: 1}, [tx(mode, [["incr", 0, 1], ["set", 1, 5]], "obj", 40), tx(mode, [["nin", "dec"], ["incr", 0, 2], ["nout"]], "obj", 40)],
+                     mode != "locked", 1))
     fams.append(("locked: a body raising a BaseException that is not an Exception while holding two locks, against a waiting call",
                  {0: 1}, [tx("locked", [["incr", 0, 1], ["set", 1, 2], ["raise", "base"]], "ctx", 40), tx("locked", [["incr", 0, 2]], "dec", 40)], True))
     fams.append(("locked: opposite lock order with a short timeout (deadlock broken by LockedError)",
@@ -810,6 +907,12 @@ def exhaustive_families():
                  {0: 1}, [tx("locked", [["incr", 0, 1]], "dec", 40), tx("locked", [["incr", 0, 2]], "dec", 40),
                           tx("locked", [["incr", 0, 4]], "dec", 40)], False))
     return fams
+
+
+def closer(rng):
+    """how a nested block ends: its body runs to its end, or (2 in 5) it is left by an exception that the enclosing body catches"""
+    r = rng.random()
+    return ["nout"] if r < 0.6 else ["nfail"] if r < 0.8 else ["nfail", rng.choice(["base", "falsy", "falsybase"])]
 
 
 def gen_ops(rng, in_tx: bool, nmax: int, form: str = "ctx"):
@@ -836,15 +939,15 @@ def gen_ops(rng, in_tx: bool, nmax: int, form: str = "ctx"):
             r2 = rng.random()
             ops.append(["raise"] if r2 < 0.35 else ["raise", "base"] if r2 < 0.55 else ["raise", "falsy"] if r2 < 0.8 else ["raise", "falsybase"])
         elif r < 0.90:
-            if in_tx and "ctx" in stack:
+            if in_tx and ("ctx" in stack or "obj" in stack):
                 ops.append(["commit"] if rng.random() < 0.6 else ["rollback"])
         elif in_tx and r < 0.96 and len(stack) < 3:
-            ops.append(["nin", rng.choice(["ctx", "dec"])])
+            ops.append(["nin", rng.choice(["ctx", "dec", "obj"])])
             stack.append(ops[-1][1])
         elif in_tx and len(stack) > 1:
-            ops.append(["nout"])
+            ops.append(closer(rng))
             stack.pop()
-    return ops + [["nout"]] * (len(stack) - 1)
+    return ops + [closer(rng) for _ in range(len(stack) - 1)]
 
 
 def gen_case(rng, ntasks_max: int, style: int):
@@ -855,11 +958,11 @@ def gen_case(rng, ntasks_max: int, style: int):
     programs = []
     for i in range(n):
         if i > 0 and rng.random() < 0.2:
-            programs.append(plain([op for op in gen_ops(rng, False, 4) if op[0] not in ("nin", "nout", "commit", "rollback")]))
+            programs.append(plain([op for op in gen_ops(rng, False, 4) if op[0] not in ("nin", "nout", "nfail", "commit", "rollback")]))
             continue
         mode = mode0 if uniform else rng.choice(["fast", "locked", "serializable"])
         to = to0 if uniform or rng.random() < 0.5 else rng.choice([20, 40, 400])
-        form = rng.choice(["dec", "dec", "ctx"])
+        form = rng.choice(["dec", "dec", "ctx", "obj", "obj"])
         if style == 1:
             # counter workload: only increments and re-timings (and reads / sleeps) so that the no-lost-increments statement applies
             ops = []
@@ -871,7 +974,8 @@ def gen_case(rng, ntasks_max: int, style: int):
                            ["commit"] if r < 0.93 else ["rollback"] if r < 0.96 else ["raise"] if r < 0.97 else ["raise", "falsy"] if r < 0.98 else
                            ["raise", "base"] if r < 0.99 else ["raise", "falsybase"])
             if rng.random() < 0.3:
-                ops = [["nin", rng.choice(["dec", "ctx"])]] + ops + [["nout"]]
+                cut = rng.randint(0, len(ops))     # the nested block ends somewhere in the body, by a return or by a caught exception
+                ops = [["nin", rng.choice(["dec", "ctx", "obj"])]] + ops[:cut] + [closer(rng)] + ops[cut:]
             if not handles_ok(ops, form):
                 ops = [op for op in ops if op[0] not in ("commit", "rollback")]
         else:
@@ -1013,7 +1117,10 @@ def run(chk: Check) -> int:
                 "key's lock, a task cancelled inside its block - with buffered writes / holding locks / while waiting for a lock -, a task outside "
                 "any transaction cancelled, a BaseException that is not an Exception leaving a block, an exception object whose truth value is False "
                 "(Exception / non-Exception BaseException subclass defining __len__ / __bool__) leaving a decorated call / a context-manager block - "
-                "with buffered writes, holding locks, with a nested block -, an explicit tx.commit() / tx.rollback() in the "
+                "with buffered writes, holding locks, with a nested block -, an inner block (nested context-manager block / decorated call made inside "
+                "the transaction) left by an exception that the enclosing body caught, a body that returned and committed after that, "
+                "two tasks inside ONE shared context object at once (one failing, the other committing; the object re-entered by its own task), "
+                "an explicit tx.commit() / tx.rollback() in the "
                 "middle of a body, a lock given back by it and taken again later in the same block, a block ended by an exception after an explicit "
                 "commit); distinct = distinct (init, programs, resolved choice sequence, cancellation budget)",
         "exhaustive": all(e["complete"] for e in exhaustive) and bool(exhaustive),
@@ -1031,7 +1138,11 @@ def run(chk: Check) -> int:
                    "non-Exception BaseExceptions), exception classes whose __bool__ / __len__ raise (falsy exception objects ARE modelled and "
                    "exercised), more than one transaction block per task, TTL values (expire is modelled as what it does to "
                    "values; another task's command between the set_many commands of the TTL groups of one commit), non-integer values inside the block, "
-                   "the multi-key commands (set_many / delete_many / delete_match / get_many issued by a body), "
+                   "the multi-key commands (set_many / delete_many / delete_match / get_many issued by a body - so another transaction's delete_match('*') "
+                   "removing :tx_lock: keys is not exercised), commands of one body running concurrently with each other (gather inside a block), "
+                   "tasks spawned inside a block (they inherit the transaction through the copied context), an inner block's failure caught by the "
+                   "body when it is LockedError or a cancellation (caught inner failures are the body's own exceptions of the four kinds), "
+                   "a write buffer or a store under capacity pressure (Memory size is 10000 here: no eviction of buffered writes or lock keys), "
                    "a second backend/prefix, orders of the gathered unlocks other than by lock key, more than 4 tasks",
     })
     chk.assumptions.extend(TRUSTED)
